@@ -107,6 +107,11 @@ type persistentDisc struct {
 	d      *kdisc.TargetsDiscovery
 	ch     chan map[string][]*targetgroup.Group
 	memo   map[*TG][]*targetgroup.Group
+	// the coordinator's view of the shards: where each target (hash) lives, and what each shard was last sent
+	shardOf  map[uint64]int
+	lastSent map[int]string
+	curSpec  *cfggen.Spec // the configuration loaded last (set by the reload phase)
+	sticky   bool // keep targets on their shards and post a shard's list only when it changed (as shard.needUpdate does)
 	ctx    context.Context
 	cancel context.CancelFunc
 }
@@ -272,9 +277,28 @@ func runC02(w *core.WorkerCtx, idx int) *core.CaseResult {
 			spec2.Jobs = spec2.Jobs[:len(spec2.Jobs)-1]
 		}
 		text2 := cfggen.Render(spec2, cfggen.Style{Indent: 2})
+		pd.curSpec = spec2
 		c02Phase(res, r, "after a reload", text2, true, groups, pd, sidecars)
 		if len(res.Viol) == 0 && c02Explore(res, pd, spec2) {
 			c02Phase(res, r, "after a reload and exploration, same groups re-sent", text2, false, groups, pd, sidecars)
+		}
+	}
+	// phases 3a/3b: reloads that change ONLY a job's metrics path - first to the path some of its targets pin
+	// themselves through __metrics_path__ (/from/sd), then away from it. Targets with a pinned path keep their
+	// hash; the coordinator does not re-post lists that did not change.
+	if len(res.Viol) == 0 && res.Inconcl == "" {
+		cur := spec
+		if pd.curSpec != nil {
+			cur = pd.curSpec
+		}
+		s3 := clone(cur)
+		s3.Jobs[0].MetricsPath = "/from/sd"
+		if c02Phase(res, r, "after a reload to the path some targets pin", cfggen.Render(s3, cfggen.Style{Indent: 2}), true, groups, pd, sidecars) && len(res.Viol) == 0 {
+			pd.sticky = true
+			s4 := clone(s3)
+			s4.Jobs[0].MetricsPath = "/path/three"
+			c02Phase(res, r, "after a path-only reload, unchanged lists not re-posted", cfggen.Render(s4, cfggen.Style{Indent: 2}), true, groups, pd, sidecars)
+			pd.sticky = false
 		}
 	}
 	res.Viol = dedupeV(res.Viol)
@@ -368,11 +392,22 @@ func c02Phase(res *core.CaseResult, r *core.Rng, phase, text string, reload bool
 		hashes = append(hashes, h)
 	}
 	sort.Slice(hashes, func(i, j int) bool { return hashes[i] < hashes[j] })
+	if pd.shardOf == nil {
+		pd.shardOf, pd.lastSent = map[uint64]int{}, map[int]string{}
+	}
+	newShardOf := map[uint64]int{}
+	sent := make([][]string, nShards)
 	for _, h := range hashes {
 		t := active[h]
 		s := r.Intn(nShards)
+		if old, ok := pd.shardOf[h]; ok && pd.sticky {
+			s = old // a target that is being scraped stays where it is
+		}
+		newShardOf[h] = s
 		assign[s][t.Job] = append(assign[s][t.Job], t.ShardTarget)
+		sent[s] = append(sent[s], fmt.Sprintf("%d/%s", h, t.ShardTarget.TargetState))
 	}
+	pd.shardOf = newShardOf
 	kv := map[string]map[string]bool{}
 	for _, jc := range orig.ScrapeConfigs {
 		kv[jc.JobName] = map[string]bool{}
@@ -401,10 +436,16 @@ func c02Phase(res *core.CaseResult, r *core.Rng, phase, text string, reload bool
 			return false
 		}
 	pushed:
-		if err := in.UpdateTargets(assign[s]); err != nil {
+		// the coordinator posts a shard's target list only when the set of hashes or a state differs from
+		// what the shard reports (shard.needUpdate); a reload that leaves them alike sends the configuration only
+		sig := strings.Join(sent[s], ",")
+		if pd.sticky && pd.lastSent[s] == sig {
+			res.AddStat("shards_not_reposted_after_a_reload", 1)
+		} else if err := in.UpdateTargets(assign[s]); err != nil {
 			res.Inconcl = "sidecar rejected assignment: " + err.Error()
 			return false
 		}
+		pd.lastSent[s] = sig
 		gen, err := in.GeneratedConfig()
 		if err != nil {
 			res.Inconcl = "no generated file: " + err.Error()
